@@ -145,6 +145,20 @@ def make_block(rng):
             parse_expect.append((addr, vals))
             line += addr + "".join("(" + v + ("*" + u if u is not None else "") + ")" for v, u in vals)
         lines.append(line.encode("ascii"))
+    if rng.random() < 0.06 and not ({"0.2.8", "96.1.1", "96.1.0"} & used_names) and names.OBIS_NAMES.get("96.1.1", "96.1.1") not in used_names and names.OBIS_NAMES.get("96.1.0", "96.1.0") not in used_names:
+        # the head of a DSMR / ESMR telegram: the version data set (4.2, 5.0, ...) followed by equipment identifiers that are hex-coded ASCII
+        ver = rng.choice(("50", "42", "40", "5", "51"))
+        ident_hex = rng.choice(("31323334", "4B384547303034303436333935353037", "4532303034", "414243444546"))
+        head_lines = []
+        for cde, val in (("0.2.8", ver), (rng.choice(("96.1.1", "96.1.0")), ident_hex)):
+            addr = rng.choice(("1-3:", "0-0:", "")) + cde
+            key = names.OBIS_NAMES.get(cde, cde)
+            used_names.add(key)
+            parse_expect.insert(len(head_lines), (addr, [(val, None)]))
+            decode_expect[key] = ("verbatim", val)
+            head_lines.append(f"{addr}({val})".encode())
+        lines[0:0] = head_lines
+        tags.add("dsmr_version_and_hex_coded_identifier")
     if rng.random() < 0.2:
         # "sequence of historical values": the same code twice, distinguished only by group F; the second one without unit (verbatim)
         c, d, e = rng.choice(((1, 6, 0), (1, 8, 0), (2, 8, 0), (16, 7, 0), rng.choice(KNOWN_CDE)))
